@@ -146,6 +146,28 @@ def run_unit(name, tier, seed, vacuity=False):
                     res.status = 'undecided'
                     res.reason = 'INSTABILITY: different obligations fail under different solver seeds (no obligation fails under all): %s' % json.dumps(retries)
                     break
+        # (3) Lost proof context is not a violation either.  Verus verifies a loop in isolation: what held before the loop is forgotten unless an
+        # invariant repeats it, so a harmless edit that introduces a local before a loop (hoisting `self.tree.len()` into `n`) loses the fact
+        # `n == self.tree.len()` inside the loop and obligations fail although nothing changed semantically.  The unit is therefore re-run once
+        # with `#![verifier::loop_isolation(false)]` (loops are verified in the context of their function; same code, same contracts, only the
+        # encoding differs).  A run that discharges everything is a proof; obligations that fail in this encoding too are kept.
+        if res.status == 'failed' and any(f.get('item') != 'prelude' for f in res.failed):
+            res3, woven3 = unit.build(vrs, os.path.join(BUILD, name.split('/')[0]), vacuity=vacuity, canary=not vacuity)
+            if woven3 is not None:
+                wl = woven3.split('\n')
+                wl[0] = '#![verifier::loop_isolation(false)] ' + wl[0]       # same line count: failure lines still map to their regions
+                open(res3.out_path, 'w').write('\n'.join(wl))
+                unit.run_verus(res3, '\n'.join(wl), timeout=timeout, rlimit=rl, extra=None)
+                retries.append({'mode': 'loop_isolation(false)', 'status': res3.status, 'failed': [obligation_name(f) for f in res3.failed]})
+                if res3.status == 'discharged':
+                    res3.retry_note = 'first run failed %s; discharged with loops verified in the context of their function (loop_isolation(false))' % ', '.join(obligation_name(f) for f in first_failed)
+                    res3.retries = retries
+                    return res3
+                if res3.status == 'failed':
+                    names = set(obligation_name(f) for f in res3.failed)
+                    kept = [f for f in res.failed if obligation_name(f) in names]
+                    if kept:
+                        res.failed = kept
         res.retries = retries
     if res.status == 'failed' and all(f.get('item') == 'prelude' for f in res.failed):
         res.status = 'undecided'
